@@ -5,6 +5,13 @@
 #include "../runtime/d_array.h"
 #include "../runtime/d_scalar.h"
 
+// An object without group, driver, gunner or commander answers with the null value of that kind,
+// never with a null pointer: the operators ask the answer whether it is null
+std::shared_ptr<sqf::types::d_group> sqf::types::object::group() const { return m_group ? m_group : std::make_shared<d_group>(); }
+std::shared_ptr<sqf::types::d_object> sqf::types::object::driver() const { return m_driver ? m_driver : std::make_shared<d_object>(); }
+std::shared_ptr<sqf::types::d_object> sqf::types::object::gunner() const { return m_gunner ? m_gunner : std::make_shared<d_object>(); }
+std::shared_ptr<sqf::types::d_object> sqf::types::object::commander() const { return m_commander ? m_commander : std::make_shared<d_object>(); }
+
 #pragma region ::sqf::types::object::soldiers
 
 bool sqf::types::object::soldiers_::push_back(sqf::runtime::value val)
